@@ -80,6 +80,22 @@ EmitSingles ==
                        path |-> IF slot = "device-path" THEN s ELSE Cp("/dev/mdt0"),
                        path0 |-> IF slot = "device-path" THEN MarkerPlain ELSE Cp("/dev/mdt0")]))
 
+\* POSITION: a multi-byte character at every offset 0..70 and 120..135 of a longer string, followed later by a
+\* character that needs escaping (a scan that counts bytes where it should count characters, or works in blocks of
+\* 16/32/64/128 bytes, goes wrong at ONE alignment); two-, three- and four-byte characters
+Rep(c, n) == [i \in 1..n |-> c]
+Offsets == (0..70) \cup (120..135)
+OffsetSlots == <<"name", "pool", "fprint-file", "fmt-literal-mid", "device-path", "xattr-match-2">>
+EmitOffsets ==
+  vSeq = <<>> =>
+    \A k \in Offsets : \A ch \in {233, 26085, 128512} : \A i \in 1..Len(OffsetSlots) :
+      (ch = 233 \/ k % 8 \in {5, 6, 7, 0, 1}) =>
+      LET slot == OffsetSlots[i]
+          s == Rep(97, k) \o <<ch>> \o Cp("b") \o (IF slot = "fmt-literal-mid" THEN Cp("~c") ELSE <<cDQ>> \o Cp("c"))
+      IN PrintT(ToJson([t |-> TreeFor(slot, s), t0 |-> TreeFor(slot, MarkerFor(slot, s)), o |-> OptsInit, slot |-> slot, u |-> s,
+                        marker |-> MarkerFor(slot, s),
+                        path |-> IF slot = "device-path" THEN s ELSE Cp("/dev/mdt0"),
+                        path0 |-> IF slot = "device-path" THEN MarkerPlain ELSE Cp("/dev/mdt0")]))
 \* the same characters written as an OCTAL ESCAPE of a format (the element Ascii(n) of the public types): the
 \* character must reach the output verbatim whatever it means to the string syntax or to `format`
 AsciiCps == {c \in SingleCps : c <= 511} \cup {256, 305, 383, 511}
